@@ -84,67 +84,76 @@ MkDoc(id, sp, tsel, ksel, s, g, r) ==
 
 Rot(x, n) == (x % n) + 1
 
-\* ---- strata -----------------------------------------------------------------------------
-FamA(full) ==
-  {LET t == u[1]  s == u[2]  g == u[3] IN
-   MkDoc("a" \o S(t) \o "x" \o S(s) \o "x" \o S(g), Rot(t + s, NS), <<t>>, <<Rot(t + s + g, NK)>>, s, g, Rend(t + s + g)) :
-     u \in {v \in (1..NT) \X (1..NI) \X (1..3) : full \/ IdShapes[v[2]] \in {"absent", "unique", "fastapi", "fastapiraw"}}}
+\* ---- strata: sets of small index records [f, x, bare]; Doc(u) builds the document -----------------
+I(f, x) == [f |-> f, x |-> x, bare |-> FALSE]
 
-FamB(rots) ==
-  {LET t1 == u[1]  t2 == u[2]  r == u[3]
-       s == Rot(t1 + 2 * t2 + r, NI)  g == Rot(t1 + t2 + r, 3) IN
-   MkDoc("b" \o S(t1) \o "x" \o S(t2) \o "x" \o S(r), Rot(t1 + r, NS), <<t1, t2>>, <<Rot(t1 + r, NK), Rot(t2 + 3 + r, NK)>>, s, g, Rend(t1 + t2 + r)) :
-     u \in (1..NT) \X (1..NT) \X (0..(rots - 1))}
+IdxA(full) == {I("a", v) : v \in {v \in (1..NT) \X (1..NI) \X (1..3) : full \/ IdShapes[v[2]] \in {"absent", "unique", "fastapi", "fastapiraw"}}}
+DocA(u) ==
+  LET t == u[1]  s == u[2]  g == u[3] IN
+  MkDoc("a" \o S(t) \o "x" \o S(s) \o "x" \o S(g), Rot(t + s, NS), <<t>>, <<Rot(t + s + g, NK)>>, s, g, Rend(t + s + g))
 
-FamC(mod, rots) ==
-  {LET t1 == u[1]  t2 == u[2]  t3 == u[3]  r == u[4]
-       s == Rot(t1 + 2 * t2 + 3 * t3 + r, NI)  g == Rot(t1 + t3 + r, 3) IN
-   MkDoc("c" \o S(t1) \o "x" \o S(t2) \o "x" \o S(t3) \o "x" \o S(r), Rot(t2 + r, NS), <<t1, t2, t3>>,
-         <<Rot(t1 + r, NK), Rot(t2 + 2, NK), Rot(t3 + 4 + r, NK)>>, s, g, Rend(t1 + t2 + t3 + r)) :
-     u \in {v \in (1..NT) \X (1..NT) \X (1..NT) \X (0..(rots - 1)) : (v[1] + v[2] + v[3]) % mod = 0}}
+IdxB(rots) == {I("b", v) : v \in (1..NT) \X (1..NT) \X (0..(rots - 1))}
+DocB(u) ==
+  LET t1 == u[1]  t2 == u[2]  r == u[3]
+      s == Rot(t1 + 2 * t2 + r, NI)  g == Rot(t1 + t2 + r, 3) IN
+  MkDoc("b" \o S(t1) \o "x" \o S(t2) \o "x" \o S(r), Rot(t1 + r, NS), <<t1, t2>>, <<Rot(t1 + r, NK), Rot(t2 + 3 + r, NK)>>, s, g, Rend(t1 + t2 + r))
 
-FamD(mod, rots) ==
-  {LET t1 == u[1]  t2 == u[2]  r == u[3]
-       t3 == Rot(t1 + 2 * t2 + r, NT)  t4 == Rot(2 * t1 + t2 + 3 + 5 * r, NT)
-       s == Rot(t1 + t2 + r, NI)  g == Rot(t1 + 2 * t2 + r, 3) IN
-   MkDoc("d" \o S(t1) \o "x" \o S(t2) \o "x" \o S(r), Rot(t1 + t2 + r, NS), <<t1, t2, t3, t4>>,
-         <<Rot(t1, NK), Rot(t2 + 1, NK), Rot(t3 + 2, NK), Rot(t4 + 3 + r, NK)>>, s, g, Rend(t1 + t2 + r)) :
-     u \in {v \in (1..NT) \X (1..NT) \X (0..(rots - 1)) : (v[1] + v[2]) % mod = 0}}
+IdxC(mod, rots) == {I("c", v) : v \in {v \in (1..NT) \X (1..NT) \X (1..NT) \X (0..(rots - 1)) : (v[1] + v[2] + v[3]) % mod = 0}}
+DocC(u) ==
+  LET t1 == u[1]  t2 == u[2]  t3 == u[3]  r == u[4]
+      s == Rot(t1 + 2 * t2 + 3 * t3 + r, NI)  g == Rot(t1 + t3 + r, 3) IN
+  MkDoc("c" \o S(t1) \o "x" \o S(t2) \o "x" \o S(t3) \o "x" \o S(r), Rot(t2 + r, NS), <<t1, t2, t3>>,
+        <<Rot(t1 + r, NK), Rot(t2 + 2, NK), Rot(t3 + 4 + r, NK)>>, s, g, Rend(t1 + t2 + t3 + r))
+
+IdxD(mod, rots) == {I("d", v) : v \in {v \in (1..NT) \X (1..NT) \X (0..(rots - 1)) : (v[1] + v[2]) % mod = 0}}
+DocD(u) ==
+  LET t1 == u[1]  t2 == u[2]  r == u[3]
+      t3 == Rot(t1 + 2 * t2 + r, NT)  t4 == Rot(2 * t1 + t2 + 3 + 5 * r, NT)
+      s == Rot(t1 + t2 + r, NI)  g == Rot(t1 + 2 * t2 + r, 3) IN
+  MkDoc("d" \o S(t1) \o "x" \o S(t2) \o "x" \o S(r), Rot(t1 + t2 + r, NS), <<t1, t2, t3, t4>>,
+        <<Rot(t1, NK), Rot(t2 + 1, NK), Rot(t3 + 2, NK), Rot(t4 + 3 + r, NK)>>, s, g, Rend(t1 + t2 + r))
 
 \* tag patterns for the id-shape and kind strata (indices into TL)
 TagPat == << <<2, 2, 2, 2>>, <<1, 1, 1, 1>>, <<2, 3, 4, 5>>, <<4, 4, 4, 4>>, <<2, 1, 3, 2>> >>
-FamE(sps) ==
-  {LET n == u[1]  tp == u[2]  s == u[3]  g == u[4]  sp == u[5] IN
-   MkDoc("e" \o S(n) \o "x" \o S(tp) \o "x" \o S(s) \o "x" \o S(g) \o "x" \o S(sp), sp, SubSeq(TagPat[tp], 1, n),
-         [j \in 1..n |-> IF (j + tp + s) % 5 = 0 THEN Rot(j + s, NK) ELSE 1], s, g, Rend(n + tp + s + g + sp)) :
-     u \in (3..4) \X (1..Len(TagPat)) \X (1..NI) \X (1..3) \X sps}
+IdxE(sps) == {I("e", v) : v \in (3..4) \X (1..Len(TagPat)) \X (1..NI) \X (1..3) \X sps}
+DocE(u) ==
+  LET n == u[1]  tp == u[2]  s == u[3]  g == u[4]  sp == u[5] IN
+  MkDoc("e" \o S(n) \o "x" \o S(tp) \o "x" \o S(s) \o "x" \o S(g) \o "x" \o S(sp), sp, SubSeq(TagPat[tp], 1, n),
+        [j \in 1..n |-> IF (j + tp + s) % 5 = 0 THEN Rot(j + s, NK) ELSE 1], s, g, Rend(n + tp + s + g + sp))
 
-KindPat == << <<2, 2, 2>>, <<4, 4, 4>>, <<1, 1, 1>> >>
-FamF2(sps) ==
-  {LET k1 == u[1]  k2 == u[2]  tp == u[3]  sp == u[4]  g == Rot(k1 + k2 + tp, 3) IN
-   MkDoc("f" \o S(k1) \o "x" \o S(k2) \o "x" \o S(tp) \o "x" \o S(sp), sp, SubSeq(KindPat[tp], 1, 2), <<k1, k2>>, Rot(k1 + tp, 2), g, Rend(k1 + k2 + tp + sp)) :
-     u \in (1..NK) \X (1..NK) \X (1..Len(KindPat)) \X sps}
-FamF3 ==
-  {LET k1 == u[1]  k2 == u[2]  k3 == u[3]  tp == u[4]  g == u[5] IN
-   MkDoc("g" \o S(k1) \o "x" \o S(k2) \o "x" \o S(k3) \o "x" \o S(tp) \o "x" \o S(g), 3, SubSeq(KindPat[tp], 1, 3), <<k1, k2, k3>>, Rot(k1 + k3, 2), g, Rend(k1 + k2 + k3 + tp + g)) :
-     u \in (1..NK) \X (1..NK) \X (1..NK) \X (1..Len(KindPat)) \X (1..3)}
+KindTagPat == << <<2, 2, 2>>, <<4, 4, 4>>, <<1, 1, 1>> >>
+IdxF2(sps) == {I("f", v) : v \in (1..NK) \X (1..NK) \X (1..Len(KindTagPat)) \X sps}
+DocF2(u) ==
+  LET k1 == u[1]  k2 == u[2]  tp == u[3]  sp == u[4]  g == Rot(k1 + k2 + tp, 3) IN
+  MkDoc("f" \o S(k1) \o "x" \o S(k2) \o "x" \o S(tp) \o "x" \o S(sp), sp, SubSeq(KindTagPat[tp], 1, 2), <<k1, k2>>, Rot(k1 + tp, 2), g, Rend(k1 + k2 + tp + sp))
+IdxF3 == {I("g", v) : v \in (1..NK) \X (1..NK) \X (1..NK) \X (1..Len(KindTagPat)) \X (1..3)}
+DocF3(u) ==
+  LET k1 == u[1]  k2 == u[2]  k3 == u[3]  tp == u[4]  g == u[5] IN
+  MkDoc("g" \o S(k1) \o "x" \o S(k2) \o "x" \o S(k3) \o "x" \o S(tp) \o "x" \o S(g), 3, SubSeq(KindTagPat[tp], 1, 3), <<k1, k2, k3>>, Rot(k1 + k3, 2), g, Rend(k1 + k2 + k3 + tp + g))
 
-Bare(d, pred(_)) == {[x EXCEPT !.rendering = "yamlbare", !.id = "y" \o x.id] : x \in {y \in d : pred(y)}}
-FamG(full) ==
-  Bare(FamA(FALSE), LAMBDA y : full \/ (Len(y.ops[1].tags) + Len(y.id)) % 7 = 0)
-  \cup Bare(FamB(1), LAMBDA y : Len(y.id) % (IF full THEN 2 ELSE 11) = 0 /\ y.ops[1].tags # y.ops[2].tags /\ (full \/ Len(y.ops[1].tags) = 2))
+Plain(i) ==
+  CASE i.f = "a" -> DocA(i.x) [] i.f = "b" -> DocB(i.x) [] i.f = "c" -> DocC(i.x) [] i.f = "d" -> DocD(i.x)
+    [] i.f = "e" -> DocE(i.x) [] i.f = "f" -> DocF2(i.x) [] i.f = "g" -> DocF3(i.x)
+Doc(i) == IF i.bare THEN [Plain(i) EXCEPT !.rendering = "yamlbare", !.id = "y" \o @] ELSE Plain(i)
+
+\* yamlbare: a slice of A and B rendered with unquoted status keys
+IdxG(full) ==
+  {[i EXCEPT !.bare = TRUE] : i \in {i \in IdxA(FALSE) : full \/ (i.x[1] + i.x[2] + i.x[3]) % 4 = 0}}
+  \cup {[i EXCEPT !.bare = TRUE] : i \in {i \in IdxB(1) : i.x[1] # i.x[2] /\ (i.x[1] + 3 * i.x[2]) % (IF full THEN 3 ELSE 16) = 0}}
 
 Family ==
-  CASE Tier = "quick"    -> FamA(FALSE) \cup FamB(1) \cup FamC(16, 1) \cup FamD(2, 1) \cup FamE({1}) \cup FamF2({1, 3}) \cup FamG(FALSE)
-    [] Tier = "thorough" -> FamA(TRUE) \cup FamB(6) \cup FamC(2, 4) \cup FamD(1, 12) \cup FamE(1..NS) \cup FamF2(1..NS) \cup FamF3 \cup FamG(TRUE)
+  CASE Tier = "quick"    -> IdxA(FALSE) \cup IdxB(1) \cup IdxC(16, 1) \cup IdxD(2, 1) \cup IdxE({1}) \cup IdxF2({1, 3}) \cup IdxG(FALSE)
+    [] Tier = "thorough" -> IdxA(TRUE) \cup IdxB(6) \cup IdxC(2, 4) \cup IdxD(1, 12) \cup IdxE(1..NS) \cup IdxF2(1..NS) \cup IdxF3 \cup IdxG(TRUE)
 
 Init == sc \in Family /\ done = FALSE
-Emit == ~done /\ done' = TRUE /\ UNCHANGED sc /\ PrintT("SCEN " \o ToJson(sc))
+Emit == ~done /\ done' = TRUE /\ UNCHANGED sc /\ PrintT("SCEN " \o ToJson(Doc(sc)))
 Spec == Init /\ [][Emit]_<<sc, done>>
 
 \* the family's tags are all covered by Surface!FoldTable and every document has 1..4 distinct (method, path) pairs
 FamilyOK ==
-  /\ Len(sc.ops) \in 1..4
-  /\ \A i, j \in DOMAIN sc.ops : i # j => <<sc.ops[i].method, sc.ops[i].path>> # <<sc.ops[j].method, sc.ops[j].path>>
-  /\ \A i \in DOMAIN sc.ops : Len(sc.ops[i].keys) = Len(sc.ops[i].tags)
+  done =>
+  LET d == Doc(sc) IN
+  /\ Len(d.ops) \in 1..4
+  /\ \A i, j \in DOMAIN d.ops : i # j => <<d.ops[i].method, d.ops[i].path>> # <<d.ops[j].method, d.ops[j].path>>
+  /\ \A i \in DOMAIN d.ops : Len(d.ops[i].keys) = Len(d.ops[i].tags)
 =============================================================================
